@@ -16,6 +16,15 @@ must have visited every leaf; once every leaf is visited inside a call that call
 start another trial.  If exhaustion coincides with the end of a bounded chunk, a stopping
 callback or an interrupt, self-stopping is not observable: only exactly-once is checked and
 the run is counted as `exhausted_at_boundary`.
+
+Extension over DESIGN.md (which injects no hard kills): a `kill` fault (kill -9 of the
+simulated process after the last suggest, trial left RUNNING for ever, forced restart) is
+injected only for GridSampler and BruteForceSampler(avoid_premature_stop=True) on durable
+deployments - the two configurations that promise coverage regardless of running trials.
+Without a stale RUNNING trial the samplers' running-trial handling is dead code in a
+sequential run (mutant "RUNNING counts as finished" would be equivalent).  The killed
+evaluation is not a visit; the resumed run must still evaluate that combination once.
+`VERIF_C14_NO_KILLS=1` switches the extension off.
 """
 from __future__ import annotations
 
@@ -32,7 +41,7 @@ ID = "C14"
 LEVEL = "exploration"
 BUDGET = {"quick": 45, "thorough": 900}
 
-DEPLOYMENTS = [("mem", 3.0), ("jf-sym", 3.0), ("rdb", 0.5)]
+DEPLOYMENTS = [("mem", 3.0), ("jf-sym", 3.0), ("rdb", 0.3)]
 DURABLE = {"rdb", "jf-sym"}
 STUDY_NAME = "c14"
 MAX_LEAVES = 30
@@ -151,8 +160,13 @@ def tree_leaves(prog: dict) -> list[str]:
     return out
 
 
+def grid_names(prog: dict) -> list[str]:
+    """Names of a grid program that are still complete (plans stay valid under deletion)."""
+    return [n for n in prog["order"] if prog["grid"].get(n) and n in prog["params"]]
+
+
 def grid_leaves(prog: dict) -> list[str]:
-    names = [n for n in prog["order"] if n in prog["grid"] and n in prog["params"]]
+    names = grid_names(prog)
     out = []
     for combo in itertools.product(*[prog["grid"][n] for n in names]):
         out.append(key_of(dict(zip(names, combo))))
@@ -180,9 +194,7 @@ def walk_tree(trial: Any, prog: dict) -> tuple[str | None, str]:
 
 def walk_grid(trial: Any, prog: dict) -> tuple[str | None, str]:
     combo: dict = {}
-    for name in prog["order"]:
-        if name not in prog["grid"] or name not in prog["params"]:
-            continue
+    for name in grid_names(prog):
         v = suggest(trial, name, prog["params"][name])
         i = index_in(prog["grid"][name], v)
         if i is None:
@@ -300,7 +312,9 @@ def gen_plan(seed: int, run: int, tier: str) -> dict:
         leaves = tree_leaves(prog)
         sampler = {"kind": "brute", "seed": rng.randint(0, 99), "avoid_premature_stop": rng.random() < 0.5}
     nl = len(leaves)
-    kills_ok = kind in DURABLE and (sampler["kind"] == "grid" or sampler.get("avoid_premature_stop"))
+    import os
+
+    kills_ok = kind in DURABLE and bool(sampler["kind"] == "grid" or sampler.get("avoid_premature_stop")) and os.environ.get("VERIF_C14_NO_KILLS") != "1"
     p_fault = rng.choice([0.0, 0.1, 0.25, 0.5])
     kinds = [("fail", 3.0), ("prune", 3.0), ("interrupt", 2.0), ("uncaught", 1.0)]
     if kills_ok:
@@ -345,6 +359,12 @@ def shrink_paths(plan: dict) -> list[tuple]:
     if plan.get("tail_faults"):
         paths.append(("tail_faults",))
     paths.append(("chunks",))
+    # smaller programs: a deleted parameter turns its nodes into leaves / drops it from the grid
+    prog = plan.get("program", {})
+    if prog.get("kind") == "grid":
+        paths.extend(("program", "grid", n) for n in sorted(prog.get("grid", {})) if len(prog["grid"][n]) > 1)
+    if len(prog.get("params", {})) > 1:
+        paths.append(("program", "params"))
     return paths
 
 
@@ -391,7 +411,7 @@ def _make_sampler(plan: dict, seed: Any) -> Any:
     s = plan["sampler"]
     if s["kind"] == "grid":
         prog = plan["program"]
-        grid = {n: list(prog["grid"][n]) for n in prog["order"] if n in prog["grid"] and n in prog["params"]}
+        grid = {n: list(prog["grid"][n]) for n in grid_names(prog)}
         return optuna.samplers.GridSampler(grid, seed=s.get("seed"))
     return optuna.samplers.BruteForceSampler(seed=seed, avoid_premature_stop=bool(s.get("avoid_premature_stop")))
 
@@ -516,6 +536,8 @@ def _run(plan: dict, sim: sched.Sim, ch: sched.Chooser, dep: deploy.Deployment) 
                 verdict("unexpected-exception", "KeyboardInterrupt out of optimize call #%d without an injected interrupt" % ci)
         except _InjectedUncaught:
             outcome = "uncaught"
+        except (sched.HarnessError, sched.SimDeadlock):
+            raise  # a kernel problem is never a verdict
         except Exception as e:
             import traceback
 
